@@ -18,7 +18,7 @@ for d in sorted(glob.glob(os.path.join(VERIF, "seeded", "*", "meta.json"))):
                 break
     det = [k for k, v in m.get("checks_run", {}).items() if v.get("detected")]
     missed = [k for k, v in m.get("checks_run", {}).items() if not v.get("detected")]
-    rows.append((sid, (m.get("property") or "").rstrip("bcd"), "yes" if m.get("confirmed") else "NO", ", ".join(det) or "-", ", ".join(missed) or "-",
+    rows.append((sid, (m.get("property") or "").rstrip("bcdef"), "yes" if m.get("confirmed") else "NO", ", ".join(det) or "-", ", ".join(missed) or "-",
                  m.get("comment", ""), first))
 out = ["# Seeded changes (written by independent sub-agents)", "",
        "Each directory holds `patch.diff` (applies to /repo HEAD with `git apply`), `demo.py` (fails with the change, passes",
